@@ -28,10 +28,16 @@ def plan_from_labels(labels, desc, note="", seed=1):
     lane, scripts = [], {}
     for k, kind in enumerate(cmds, start=1):
         c = {"id": "c%d" % k, "kind": kind, "svc": "A"}
-        if kind == "deploy":
-            c.update(targets=group[k - 1], hosts=["a.test"], dto=dto, drto=drto)
+        kind = {"rdeploy": "rollout_deploy", "rset": "rollout_set", "rstop": "rollout_stop"}.get(kind, kind)
+        c["kind"] = kind
+        if kind in ("deploy", "rollout_deploy"):
+            c.update(targets=group[k - 1], dto=dto, drto=drto)
+            if kind == "deploy":
+                c.update(hosts=["a.test"])
             for t in group[k - 1]:
                 scripts[t] = {"probes": [], "then": {"class": "ok"}}
+        elif kind == "rollout_set":
+            c.update(pct=100)         # every request that carries the cookie is inside the split
         elif kind == "pause":
             c.update(drto=drto, max_pause=mp)
         elif kind == "stop":
@@ -45,8 +51,9 @@ def plan_from_labels(labels, desc, note="", seed=1):
     def key(point, actor):
         return point + "@" + actor
 
+    rolls = {a[0] for name, a in labels if name == "ReqPickLb" and len(a) > 1 and a[1] == "TRUE"}
     for name, a in labels:
-        if name in ("DepCall", "PcPause", "PcStop", "PcResume", "CmdNotFound"):
+        if name in ("DepCall", "RdCall", "RsSet", "RsStop", "CmdRemove", "PcPause", "PcStop", "PcResume", "CmdNotFound"):
             wanted.append(key("op_next", "lane0"))
             issued += 1
         elif name == "TgProbeReply":
@@ -61,7 +68,7 @@ def plan_from_labels(labels, desc, note="", seed=1):
             wanted.append(key("dep_pre_install", "c:c%d" % issued))
             replaced_something = installed
             installed = True
-        elif name == "DepWaitTimeout":
+        elif name in ("DepWaitTimeout", "WaitTargetTimeout"):
             wanted += ["advance"] * (dto // 100 + 2)
         elif name == "DrainMark":
             wanted.append(key("drain_start", "dr:%s#1" % a[0]))
@@ -75,7 +82,8 @@ def plan_from_labels(labels, desc, note="", seed=1):
         elif name == "CliSend":
             r, kind = a[0], a[1]
             lane_of[r] = len(clients)
-            clients.append([{"id": r, "svc": "A", "host": "a.test", "path": "/x", "kind": kind}])
+            clients.append([{"id": r, "svc": "A", "host": "a.test", "path": "/x", "kind": kind,
+                             "cookie": "guided" if r in rolls else ""}])
             wanted.append(key("cli_next", "cli%d" % lane_of[r]))
         elif name == "ReqRoute":
             wanted.append(key("routed", "r:" + a[0]))
